@@ -1248,6 +1248,11 @@ def solve_sylvester_direct(
         if index[0] < len(eigenvalues) and index[1] < len(eigenvalues):
             return explicit_part(Y, index)
 
+        if index[0] == index[1] == len(eigenvalues):
+            # The implicit subspace is never fully diagonalized, so that nothing is
+            # eliminated within it: whatever is asked for is masked out afterwards.
+            return zero
+
         if index[0] == len(eigenvalues):
             if greens_functions_left is None:
                 raise NotImplementedError(
